@@ -109,6 +109,35 @@ pub fn run_line(line: &str) -> String {
             }
             format!("ok {}", outs.join(" "))
         }
+        // renc_multi_mut <level 0|1> <frag> <data-hex>... : several frames through ONE reused FrameCompressor whose
+        // source and drain are installed once and afterwards only changed in place through source_mut() / drain_mut();
+        // after the last input, compress() is called once more on the exhausted source (an empty frame)
+        "renc_multi_mut" => {
+            let level = if w[1] == "0" {
+                ruzstd::encoding::CompressionLevel::Uncompressed
+            } else {
+                ruzstd::encoding::CompressionLevel::Fastest
+            };
+            let frag: usize = w[2].parse().unwrap();
+            let mut comp = ruzstd::encoding::FrameCompressor::new(level);
+            let mut outs = Vec::new();
+            for (i, h) in w[3..].iter().enumerate() {
+                let src = crate::prog::Src::new(unhex(h), frag);
+                if i == 0 {
+                    comp.set_source(src);
+                    comp.set_drain(Vec::new());
+                } else {
+                    *comp.source_mut().unwrap() = src;
+                }
+                comp.compress();
+                let out: Vec<u8> = core::mem::take(comp.drain_mut().unwrap());
+                outs.push(hex(&out));
+            }
+            comp.compress();
+            let out: Vec<u8> = core::mem::take(comp.drain_mut().unwrap());
+            outs.push(hex(&out));
+            format!("ok {}", outs.join(" "))
+        }
         // rencm <level 0|1> <window> <frames> : frames separated by '/', blocks by '+';
         // block = <data-hex>:<ll>,<off>,<ml>;...  (a parse of the block: literal run, then match; the rest are
         // trailing literals) or <data-hex>:- (no sequences) ; a block spec starting with 'p' is a partial last block.
